@@ -560,6 +560,56 @@ impl C07 {
 
 /// Every single-bit flip and every truncation of genuine datagrams, presented to the live endpoint they were meant for:
 /// nothing observable may change (the decode-only version of this enumeration is C17's).
+const SEALED_LENS: [usize; 17] = [0, 1, 7, 8, 9, 100, 299, 300, 301, 307, 308, 309, 400, 1200, 1300, 1301, 1382];
+
+/// A peer that holds a session key (anybody with a valid token does) seals a datagram of any kind around a body of any length - sealed
+/// correctly, with a fresh sequence number, so it is authentic and may be acted upon; what is asserted is that the call returns.
+fn sealed_body(index: u64, ctx: &mut Ctx) -> Outcome {
+    let li = (index % SEALED_LENS.len() as u64) as usize;
+    let kind = 1 + ((index / SEALED_LENS.len() as u64) % 15) as u8;
+    let which = (index / (SEALED_LENS.len() as u64 * 15)) % 4;
+    let len = SEALED_LENS[li];
+    let mut nw = stage(7, 15)?;
+    let (target, key) = match which {
+        0 => (Target::ServerFromPending, nw.clients[P].token.client_to_server_key),
+        1 => (Target::ServerFromConnected, nw.clients[C].token.client_to_server_key),
+        2 => (Target::Client(C), nw.clients[C].token.server_to_client_key),
+        _ => (Target::Client(P), nw.clients[P].token.server_to_client_key),
+    };
+    ctx.op(&("sealed_body", kind, len, target));
+    // the harness's own sealing is checked against the library first: a well-formed payload sealed this way must surface
+    if index == 0 {
+        let probe = seal_raw(5, 1 << 20, b"probe", PROTO, &nw.clients[C].token.client_to_server_key);
+        match nw.server_recv(0, client_addr(C), &probe) {
+            SrvOut::Payload { payload, .. } if payload == b"probe" => {}
+            other => return Err(Fail::new("stage", format!("the harness's own sealing is not accepted by the library: {other:?}")).sig("harness_io")),
+        }
+    }
+    let mut body = vec![0u8; len];
+    fill_stream(index, &mut body);
+    // two datagrams: all-zero body fields, then pseudo-random ones; fresh sequence numbers far above anything used so far
+    for (round, b) in [vec![0u8; len], body].into_iter().enumerate() {
+        let dgram = seal_raw(kind, (1 << 30) + 2 * index + round as u64, &b, PROTO, &key);
+        match target {
+            Target::Client(c) => {
+                nw.client_recv(c, &dgram);
+            }
+            _ => {
+                nw.server_recv(0, target.addr(), &dgram);
+            }
+        }
+    }
+    // every later call still returns
+    nw.now += Duration::from_millis(300);
+    nw.server_tick(0, Duration::from_millis(300));
+    for c in 0..nw.clients.len() {
+        nw.client_update(c, Duration::from_millis(300));
+    }
+    ctx.label("sealed_body");
+    ctx.nontrivial = true;
+    Ok(())
+}
+
 fn genuine_tamper(index: u64, ctx: &mut Ctx) -> Outcome {
     let per = 360 * 8 + 360;
     let sample = (index / per) as usize;
@@ -626,7 +676,7 @@ impl Property for C07 {
         "exploration"
     }
     fn rule(&self) -> String {
-        "Floods (enumerated): every target endpoint is handed all 256 prefix bytes twice in a row at each length class, 512 hostile datagrams with nothing genuine in between, under the same per-datagram oracles, then genuine traffic must still work. A case stages a secure server holding every protocol state at once (unknown address, pending address, connected victim, connected bystander; clients requesting, responding, connected, disconnected) and presents non-authentic datagrams to the server from every source-address class and to every client: mutations (bit flips in prefix / sequence / body / tag, truncations, extensions, prefix replacement) of genuine datagrams of any session and direction, genuine datagrams replayed or presented at the wrong endpoint, well-formed prefixes with boundary lengths and all-zero / all-ff sequence bytes, random bytes 0..1400; silence is interleaved so a refreshed timer shows. Enumerated: all 256 prefix bytes x 13 boundary lengths x 2 fills x 7 targets; every single-bit flip and every truncation of eight fresh genuine datagrams (payload, keep-alive, response, challenge, request; both directions) presented to the live endpoint they were meant for. Tokens: raw bytes and field-wise mutations of valid serialisations (address count 0/33/2^32-1, 32..300 well-formed entries with and without NONE entries, type tags 0/1/2/3/255, expire < create, zero/negative timeouts, truncations) through ConnectToken::read -> NetcodeClient::new -> update / process_packet / generate_payload_packet / disconnect. Sealed hostile tokens: connection requests whose private token is sealed correctly - an unsecure server's key is public, a secure server's backend may err - around a hostile plaintext (0..100 well-formed address entries with the server's own address first, last, at slot 31 or nowhere, lying counts, unknown type tags, up to 40 NONE entries, random bytes; timeouts 0, negative, i32 extremes; ids 0, 2^63, 2^64-1; expiry at, around and far beyond the server second, clocks 0 and 2^33 s), answered as the client would (response sealed with the key the plaintext names) and the resulting session driven through updates of 0 ms .. 2^32 ms, repeated requests, payloads, keep-alives and accessors - no-unwind clause only. Oracles: no call unwinds (overflow checks on); a non-authentic datagram (by provenance) yields neither Payload nor ClientConnected nor ClientDisconnected, client process_packet returns None, and the snapshot of clients_id / connected_clients / per-client addr, user data, connectedness and time_since_last_received_packet (server) and connected / connecting / reason / time_since_last_received_packet / server_addr (every client) is unchanged; afterwards a genuine payload still surfaces in both directions and the pending client completes its handshake. Non-trivial: a datagram of >= 18 bytes presented from a known address or to a client past the request state (reaches the keyed decode path), or a mutated token that parses. Distinct = hash of the decoded case.".into()
+        "Floods (enumerated): every target endpoint is handed all 256 prefix bytes twice in a row at each length class, 512 hostile datagrams with nothing genuine in between, under the same per-datagram oracles, then genuine traffic must still work. A case stages a secure server holding every protocol state at once (unknown address, pending address, connected victim, connected bystander; clients requesting, responding, connected, disconnected) and presents non-authentic datagrams to the server from every source-address class and to every client: mutations (bit flips in prefix / sequence / body / tag, truncations, extensions, prefix replacement) of genuine datagrams of any session and direction, genuine datagrams replayed or presented at the wrong endpoint, well-formed prefixes with boundary lengths and all-zero / all-ff sequence bytes, random bytes 0..1400; silence is interleaved so a refreshed timer shows. Enumerated: all 256 prefix bytes x 13 boundary lengths x 2 fills x 7 targets; every single-bit flip and every truncation of eight fresh genuine datagrams (payload, keep-alive, response, challenge, request; both directions) presented to the live endpoint they were meant for. Sealed bodies (enumerated): a peer holding a session key (the pending client, the connected client, the server towards each of them) seals every packet kind 1..15 around bodies of 17 lengths from 0 to 1382 bytes (all-zero and pseudo-random) with a fresh sequence number - authentic datagrams whose body has the wrong size for their kind; no-unwind clause only. Tokens: raw bytes and field-wise mutations of valid serialisations (address count 0/33/2^32-1, 32..300 well-formed entries with and without NONE entries, type tags 0/1/2/3/255, expire < create, zero/negative timeouts, truncations) through ConnectToken::read -> NetcodeClient::new -> update / process_packet / generate_payload_packet / disconnect. Sealed hostile tokens: connection requests whose private token is sealed correctly - an unsecure server's key is public, a secure server's backend may err - around a hostile plaintext (0..100 well-formed address entries with the server's own address first, last, at slot 31 or nowhere, lying counts, unknown type tags, up to 40 NONE entries, random bytes; timeouts 0, negative, i32 extremes; ids 0, 2^63, 2^64-1; expiry at, around and far beyond the server second, clocks 0 and 2^33 s), answered as the client would (response sealed with the key the plaintext names) and the resulting session driven through updates of 0 ms .. 2^32 ms, repeated requests, payloads, keep-alives and accessors - no-unwind clause only. Oracles: no call unwinds (overflow checks on); a non-authentic datagram (by provenance) yields neither Payload nor ClientConnected nor ClientDisconnected, client process_packet returns None, and the snapshot of clients_id / connected_clients / per-client addr, user data, connectedness and time_since_last_received_packet (server) and connected / connecting / reason / time_since_last_received_packet / server_addr (every client) is unchanged; afterwards a genuine payload still surfaces in both directions and the pending client completes its handshake. Non-trivial: a datagram of >= 18 bytes presented from a known address or to a client past the request state (reaches the keyed decode path), or a mutated token that parses. Distinct = hash of the decoded case.".into()
     }
     fn assumptions(&self) -> Vec<String> {
         vec![
@@ -638,15 +688,18 @@ impl Property for C07 {
         PbtCfg { cases: tier.pick(150_000, 3_000_000), max_len: tier.pick(600, 1800), shrink_ms: 120_000 }
     }
     fn required_labels(&self) -> Vec<&'static str> {
-        vec!["keyed_path", "at_unknown", "at_pending", "at_connected", "at_client", "token_case", "token_parsed", "token_many_entries", "sealed_token_case", "sealed_token_answered", "sealed_token_connected", "flood"]
+        vec!["keyed_path", "at_unknown", "at_pending", "at_connected", "at_client", "token_case", "token_parsed", "token_many_entries", "sealed_token_case", "sealed_token_answered", "sealed_token_connected", "flood", "sealed_body"]
     }
     fn enums(&self, _tier: Tier) -> Vec<(&'static str, u64)> {
         // genuine_tamper: 8 sample datagrams x (every bit of the first 360 bytes + every truncation up to 360)
-        vec![("prefix_length_grid", 256 * 13 * 2 * 7), ("genuine_tamper", 8 * (360 * 8 + 360)), ("floods", 13 * 2 * 7)]
+        vec![("prefix_length_grid", 256 * 13 * 2 * 7), ("genuine_tamper", 8 * (360 * 8 + 360)), ("floods", 13 * 2 * 7), ("sealed_bodies", 4 * 15 * SEALED_LENS.len() as u64)]
     }
     fn run_enum(&self, name: &str, index: u64, ctx: &mut Ctx) -> Outcome {
         if name == "genuine_tamper" {
             return genuine_tamper(index, ctx);
+        }
+        if name == "sealed_bodies" {
+            return sealed_body(index, ctx);
         }
         if name == "floods" {
             // the same endpoint is handed all 256 prefix bytes twice in a row (512 hostile datagrams, nothing genuine in between):
